@@ -685,12 +685,30 @@ fn run_print(cfg: &Config, id: &'static str) -> i32 {
 			if l >= 1 && l <= 130 {
 				for ch in ["a", "\u{e9}", "\u{20ac}", "\u{1f600}"] {
 					let s = ch.repeat(l);
-					let r = RVal::Arr(vec![RVal::Str(s.clone()), RVal::Obj(vec![(s.clone(), RVal::Str(s))])]);
-					let v = from_rval(&r);
-					for _ in 0..3 {
-						let o = random_record(&mut rng, &r);
-						mon.one("long-strings", &r, &v, &o);
-						mon.rep.distinct_by_construction(1);
+					for r in [
+						RVal::Arr(vec![RVal::Str(s.clone()), RVal::Obj(vec![(s.clone(), RVal::Str(s.clone()))])]),
+						// a container whose only content is that string: its width is the string's plus a constant
+						RVal::Arr(vec![RVal::Str(s.clone())]),
+						RVal::Obj(vec![("k".into(), RVal::Str(s.clone()))]),
+					] {
+						let v = from_rval(&r);
+						for _ in 0..3 {
+							let mut o = random_record(&mut rng, &r);
+							// both limits width-based half of the time (a limit of the other kind hides width mistakes)
+							if rng.chance(1, 2) {
+								let mut widths = Vec::new();
+								let mut probe = o;
+								probe.array_limit = None;
+								probe.object_limit = None;
+								pr::one_line(&r, &probe, &mut widths);
+								let w = widths.iter().map(|x| x.2).max().unwrap_or(10);
+								let pick = |rng: &mut Rng| (w + rng.below(5)).saturating_sub(2);
+								o.array_limit = Some(PLimit::Width(pick(&mut rng)));
+								o.object_limit = Some(if rng.chance(1, 2) { PLimit::Width(pick(&mut rng)) } else { PLimit::ItemOrWidth(1 + rng.below(3), pick(&mut rng)) });
+							}
+							mon.one("long-strings", &r, &v, &o);
+							mon.rep.distinct_by_construction(1);
+						}
 					}
 				}
 			}
